@@ -466,6 +466,27 @@ def rule_registry(ctx) -> None:
 
 def rule_srk(ctx) -> None:
     chk = ctx.chk
+    # ECC SRK item: writer and reader use the same coordinate width for every supported curve
+    init, pa = ctx.own(SEC, "SrkItemEcc", "__init__"), ctx.own(SEC, "SrkItemEcc", "parse")
+    wdef = [s.value for s in A.walk_no_nested(init.node) if isinstance(s, ast.Assign) and norm(s.targets[0]) == "self.coordinate_size"]
+    rdef = A.single_def(pa.node, "coordinate_size")
+    if len(wdef) != 1 or rdef is None:
+        raise AnalysisError("C07.srk: coordinate size definitions of SrkItemEcc not found")
+    probs = []
+    for bits in (256, 384, 521):
+        try:
+            w = Evaluator({"key_size": bits}).ev(wdef[0])
+            r = Evaluator({"key_size": bits}).ev(rdef)
+        except Unsupported as u:
+            raise AnalysisError(f"C07.srk: coordinate size expression left the fragment: {u}")
+        if w != r or w != -(-bits // 8):
+            probs.append(f"P-{bits}: written at {w} B, read at {r} B (coordinate is {-(-bits // 8)} B)")
+    chk.decide(not probs, "C07.srk", f"{SEC}::SrkItemEcc coordinate width", "export and parse use ceil(bits/8) bytes per coordinate for P-256/384/521", "; ".join(probs), "", A.loc(SEC, pa.node))
+    ex = ctx.own(SEC, "SrkItemEcc", "export")
+    tb = [norm(A.arg_of(c, 0, "length")) for c in A.calls_in(ex.node, "to_bytes")]
+    t = norm(pa.node)
+    ok = tb == ["self.coordinate_size", "self.coordinate_size"] and "x_coordinate = data[offset:offset + coordinate_size]" in t and "y_coordinate = data[offset:offset + coordinate_size]" in t and "offset += coordinate_size" in t
+    chk.decide(ok, "C07.srk", f"{SEC}::SrkItemEcc x/y windows", "x then y, each one coordinate wide, on both sides", f"export widths {tb}", "", A.loc(SEC, ex.node))
     ef = ctx.own(SEC, "SrkTable", "export_fuses")
     t = norm(ef.node)
     chk.decide("for srk in self._keys: data += srk.sha256()" in t.replace("\n", " ").replace("    ", "") and "return sha256(data).digest()" in t, "C07.srk", ef.qual, "fuse value = SHA-256 over the concatenated SHA-256 digests of every SRK item in table order", t[:200], "", A.loc(SEC, ef.node))
